@@ -246,9 +246,10 @@ def _single_trial_possible(model, fixed, crossing_fids):
     return False
 
 
-def _single_trial_possible_excl_only(model, fixed):
+def _single_trial_possible_excl_only(model, fixed, all_basic_levels=False):
     """Like _single_trial_possible, but derived factors only matter through *excluded* derived levels
-    (rule 3 of B.2): True when the combination stays possible under that weaker reading."""
+    (rule 3 of B.2): True when the combination stays possible under that weaker reading.
+    all_basic_levels: the uncrossed basic factors range over all their levels, excluded ones too (one Exclude at a time)."""
     F = model.factors
     excl_derived = [fid for (fid, lv) in model.excluded if F[fid].kind == "derived" and not F[fid].complex]
     if not excl_derived:
@@ -258,7 +259,7 @@ def _single_trial_possible_excl_only(model, fixed):
                             key=lambda i: F[i].depth)
     choices = []
     for fid in basics:
-        choices.append([fixed[fid]] if fid in fixed else [l for l in F[fid].levels if (fid, l) not in model.excluded])
+        choices.append([fixed[fid]] if fid in fixed else [l for l in F[fid].levels if all_basic_levels or (fid, l) not in model.excluded])
     for combo in itertools.product(*choices):
         trial = dict(zip(basics, combo))
         ok = True
@@ -318,6 +319,10 @@ def _crossing_spec(model, fids, rcc):
             indep_removed.add(combo)
     if not (indep_removed <= c.removed) or any(
             _single_trial_possible_excl_only(model, dict(zip(fids, combo))) for combo in (c.removed - indep_removed)):
+        model.gaps.append("joint-infeasible-combination")
+    elif any(_single_trial_possible_excl_only(model, dict(zip(fids, combo)), all_basic_levels=True) for combo in (c.removed - indep_removed)):
+        # removed only because an Exclude of an uncrossed basic level leaves no completion that avoids an excluded derived
+        # level: two Exclude constraints acting jointly, which the documented (one level at a time) rule does not cover
         model.gaps.append("joint-infeasible-combination")
     c.pre = max([F[fid].start for fid in fids if F[fid].kind == "derived" and F[fid].complex] + [0])
     return c
@@ -495,7 +500,9 @@ def _elab_block(ast, b, model):
             mode = b.get("mode", "repeat")
             alignment = b.get("alignment") or infos[0]["alignment"]
             for i in infos:
-                if i["alignment"] != alignment:
+                # a block with a single crossing has nothing to align (documented law: MultiCrossBlock(..., alignment) =
+                # Merge of one CrossBlock per crossing with that alignment), so only multi-crossing operands can conflict
+                if i["alignment"] != alignment and len(i["crossings"]) > 1:
                     model.status = "rejected"
                     model.reason = "blocks have different alignments"
                     return {}
